@@ -36,7 +36,7 @@ func init() {
 		FaultKinds: []string{"F-preempt", "F-cancel", "F-timeout"},
 	})
 	Register(&Prop{
-		ID: "C13", Bubble: true, Run: runC13, QuickRuns: 2500,
+		ID: "C13", Bubble: true, Run: runC13, QuickRuns: 3500,
 		ExpectedProbes: []string{"returned_exactly_at_bound", "refused_at_arrival", "precancelled_or_late_call_with_free_capacity", "legitimately_blocked_at_end"},
 		Rule: "one run = blocking / deadline / queue limiter with all capacity held for the whole run (variant A) or released on the same 1 ms grid as the bounds (variant B); callers arrive at grid instants with backlog timeouts (1 ns .. 1 h, 0 = documented default 1 s), deadlines at/before/after creation and arrival, cancellations before/at/after arrival; " +
 			"oracle on the virtual clock: a refused blocked call returned exactly at its bound (arrival+timeout, deadline, cancel instant), never earlier, never later; calls with an already-cancelled context or after the deadline are refused at the arrival instant without consuming capacity; " +
@@ -47,7 +47,7 @@ func init() {
 		Assumptions: []string{"synctest fake clock: timers fire at exact instants; equality instants are explored on purpose"},
 	})
 	Register(&Prop{
-		ID: "C19", Bubble: true, Run: runC19, QuickRuns: 2500,
+		ID: "C19", Bubble: true, Run: runC19, QuickRuns: 3500,
 		ExpectedProbes: []string{"more_callers_than_limit", "blocked_then_granted"},
 		Rule: "one run = FixedPool or Pool (random/FIFO/LIFO), limit 1..4, callers <= limit + backlog, hold times on the virtual clock whose sum stays below the backlog timeout, staggered or simultaneous arrivals, one seeded schedule; " +
 			"oracle: tokens held <= limit at every quiescent point; when the schedule ends every caller was granted; " +
